@@ -188,7 +188,9 @@ func loadCorpus(maxSize int) []corpusFile {
 		if ext != ".go" && ext != ".html" && ext != ".md" {
 			return nil
 		}
-		if strings.Contains(p, ".dir/") {
+		if strings.Contains(p, ".dir/") || strings.Contains(p, "github.com-golang-go/") || strings.Contains(p, "/limits/") {
+			// multi-file tests; gc's own torture tests (arrays of 10^9 elements make a
+			// single build take seconds and gigabytes) and the limit tests
 			return nil
 		}
 		b, err := os.ReadFile(p)
